@@ -31,6 +31,7 @@ JsAlpha == <<"a", "Z", " ", "/", "<", "\"", "'", "\\", "r", "n", "0", "NL", "EAC
 UrlAlpha == <<"a", "7", "-", "_", ".", "~", " ", "/", "&", "=", "?", "%", "+", "EACUTE", "CJK", "EMOJI", "#", ":", "BAD", "'", "*", "(">>
 WordAlpha == <<"a", "B", "z", " ", "NL", "'", "-", "7", "EACUTE", "_">>
 TagAlpha == <<"<", ">", "/", "b", "i", "a", " ", "NL">>
+CaseAlpha == <<"<", ">", "/", "b", "B">>        \* a tag name is matched as it is written: b is not B
 SpAlpha == <<"<", ">", " ", "NL", "a", "TAB">>
 
 VARIABLES vec, go
@@ -110,8 +111,8 @@ Init ==
             \/ \E i \in {1, 2}, l \in 1..Len(Layouts), f \in {"date", "time"} : vec = Vec(f, Instant(i), LayoutArg(Layouts[l]), DateFormat(Instant(i), Layouts[l]))
             \/ \E q \in 1..Len(Nums), f \in {"date", "time"} : vec = Vec(f, Nums[q], LayoutArg(Layouts[1]), DateFormat(Nums[q], Layouts[1])))
        [] Family = "widthratio" -> (
-            \E v \in 0..12, m \in 1..12, w \in {10, 100, 7} :
-              LET r == WidthRatio(v, m, w) IN vec = Vec("widthratio", I(v), P(I(m), I(w)), P(I(r.lo), I(r.hi))))
+            \E v \in (0 - 12)..12, m \in 1..12, w \in {10, 100, 7, 0 - 8}, form \in {"widthratio", "widthratio_as"} :
+              LET r == WidthRatio(v, m, w) IN vec = Vec(form, I(v), P(I(m), I(w)), P(I(r.lo), I(r.hi))))
        [] Family = "escape" -> (\E w \in StrsUpTo(EscAlpha, MaxLen) :
                                   \/ vec = Vec("escape", S(Mk(EscAlpha, w)), Nil, S(Escape(Mk(EscAlpha, w))))
                                   \* the filter does what it says whatever the history of its input: also on text marked safe
@@ -127,6 +128,8 @@ Init ==
        [] Family = "tags" -> (\E w \in StrsUpTo(TagAlpha, MaxLen) :
                                      \/ vec = Vec("striptags", S(Mk(TagAlpha, w)), Nil, S(StripTags(Mk(TagAlpha, w))))
                                      \/ vec = Vec("removetags", S(Mk(TagAlpha, w)), S(<<"b">>), S(RemoveTags(Mk(TagAlpha, w), "b"))))
+       [] Family = "tagcase" -> (\E w \in StrsUpTo(CaseAlpha, MaxLen), tg \in {"b", "B"} :
+                                     vec = Vec("removetags", S(Mk(CaseAlpha, w)), S(<<tg>>), S(RemoveTags(Mk(CaseAlpha, w), tg))))
        [] Family = "spaceless" -> (\E w \in StrsUpTo(SpAlpha, MaxLen) : vec = Vec("spaceless", S(Mk(SpAlpha, w)), Nil, S(Spaceless(Mk(SpAlpha, w)))))
 Next == go = FALSE /\ go' = TRUE /\ UNCHANGED vec
 
